@@ -364,13 +364,31 @@ def charge_scale(by, cells):
     return max(sum(abs(by[0][c][-1]["m_" + e]) * z[e] for e in gt.ELEMENTS) for c in cells if c in by[0]) or 1.0
 
 
-def oracle_inventory(case, by, cells, shifts, flux=None):
+KMAX_JUDGED = 300   # speciations per cell between the two compared states (see oracle_inventory)
+
+
+def oracle_inventory(case, by, cells, shifts, flux=None, kstep=1, hist=None):
     """conservation: flux=None → closed column, inventory constant; flux=(inflow cell, outflow cell) → per step
     inventory(t) = inventory(t−1) + dissolved(inflow solution) − dissolved(outflow cell at t−1)."""
     bad = []
     fs = inv_funcs(case)
     if 0 not in by or any(c not in by[0] for c in cells):
         return None
+    # The engine stores, after every speciation, the sums over the species (sum_species), i.e. the transported totals
+    # pick up each speciation's mass-balance residual (measured 4e-13 .. 2e-12 relative, systematic). Beyond a few
+    # hundred speciations that numerical noise alone reaches the property's 1e-9 (e.g. 650 mixruns in one step:
+    # 1.4e-9). Conservation is judged only between states at most KMAX_JUDGED speciations apart; longer stretches are
+    # counted, not judged.
+    if flux is not None and kstep > KMAX_JUDGED:
+        if hist is not None:
+            hist["long_run_not_judged"] += 1
+        return None
+    tmax = shifts if flux is not None else min(shifts, KMAX_JUDGED // max(kstep, 1))
+    if tmax < shifts and hist is not None:
+        hist["long_run_partly_judged"] += 1
+    if tmax < 1:
+        return None
+    shifts = tmax
     for name, f in fs.items():
         inv0 = col_inventory(by, 0, cells, f)
         # scale: the inventory, the largest cell value, and what the boundary solutions can bring in
@@ -391,6 +409,23 @@ def oracle_inventory(case, by, cells, shifts, flux=None):
                 bad.append((name, t, exp, inv, (inv - exp) / max(sc, 1e-300)))
                 break
             prev = inv
+    return bad
+
+
+def oracle_weights(res):
+    """`weights_convex` evaluated on the implementation: every entry of the Dispersion_mix_map read mid-run lies in
+    [0,1] and the three entries of a cell sum to 1. A weight outside [0,1] is a concrete witness that the sub-mix is
+    not a convex combination (bounded mixing can fail)."""
+    bad = []
+    mix = res.get("mix")
+    if not mix:
+        return bad
+    for i, w in sorted(mix["cells"].items()):
+        vals = list(w.values())
+        if any(not (v == v) for v in vals):
+            bad.append((i, w, "nan"))
+        elif any(v < -1e-12 or v > 1 + 1e-12 for v in vals) or abs(sum(vals) - 1.0) > 1e-12:
+            bad.append((i, w, "outside [0,1] or sum != 1"))
     return bad
 
 
@@ -419,6 +454,12 @@ def direct_oracles(case, res, hist, code_nmix, plan=None):
         return out                                     # nothing moves, nothing is punched
     mobile = list(range(1, n + 1))
     cells = mobile + [c for c in by.get(0, {}) if c > n + 1]
+    # (0) the code's own mixing map is convex (single-coefficient branch; the map is only used when nmix > 0)
+    if not case.get("mcd") and code_nmix > 0 and res.get("mix"):
+        hist["oracle_weights"] += 1
+        bad = oracle_weights(res)
+        if bad:
+            out.append(("oracle-weights", bad[:3]))
     # (1) range: single diffusion coefficient, no reactive solids
     if not case.get("mcd") and not case.get("solids"):
         bad = oracle_range(case, by, n)
@@ -430,7 +471,7 @@ def direct_oracles(case, res, hist, code_nmix, plan=None):
     nodiff = su["diffc"] * su["timest"] == 0
     # (2) closed diffusion-only column: inventory constant
     if su["flow"] == 0 and su["bf"] == 2 and su["bl"] == 2 and (equal or case.get("mcd")):
-        bad = oracle_inventory(case, by, cells, shifts)
+        bad = oracle_inventory(case, by, cells, shifts, None, code_nmix + 1, hist)
         if bad is not None:
             hist["oracle_closed_inventory"] += 1
             if bad:
@@ -453,7 +494,7 @@ def direct_oracles(case, res, hist, code_nmix, plan=None):
     if su["flow"] != 0 and su["bf"] == 3 and su["bl"] == 3 and (equal or (nodiff and not case.get("mcd"))) and not case.get("implicit"):
         flux = (0, n) if su["flow"] > 0 else (n + 1, 1)
         if flux[0] in by.get(0, {}):
-            bad = oracle_inventory(case, by, cells, shifts, flux)
+            bad = oracle_inventory(case, by, cells, shifts, flux, code_nmix + 1, hist)
             if bad is not None:
                 ds = set(su["D"])
                 mixed_zero = 0 in ds and len(ds) > 1
@@ -623,6 +664,8 @@ def judge_advection(case, res, model_lines, hist):
 
 def note_hist(c, res, hist):
     hist["cases"] += 1
+    if c.get("gen") == "stress":
+        hist["gen_end_cell_stress"] += 1
     if c["kind"] == "advection":
         hist["kind_advection"] += 1
         return
@@ -692,6 +735,58 @@ def shrink_case(ctx, exe, c, kinds):
     return cur
 
 
+def _scaled(dec, f):
+    """decimal string of Fraction(dec) * f (f a Fraction with power-of-ten denominator times small ints)"""
+    v = Fraction(dec) * f
+    return gt._fracdec(v) if (v * 10 ** 30).denominator == 1 else "%.6e" % float(v)
+
+
+def targeted_search(ctx, exe, case, limit_cells=3):
+    """failing-input search used when the code's mixing map is not convex or differs from the model (protocol Q):
+    keep the offending column set-up, vary the time step so that few sub-mixes are made, find the cell(s) whose self
+    weight in the *code's* map is smallest, and give that cell a solution at one end of the concentration range and
+    all other cells and the boundary solutions the other end (maximal contrast). Run the real engine, evaluate the
+    property's range oracle on its output. Returns (case, bad) of the first input on which the oracle fails."""
+    if case.get("kind") != "transport" or is_variant(case):
+        return None
+    lo = {"water": "1", "pH": "7", "el": {"Na": "0.01", "Cl": "0.01"}}
+    hi = {"water": "1", "pH": "7", "el": {"Na": "10", "Cl": "10"}}
+    n = case["n"]
+    factors = [Fraction(1), Fraction(7, 10), Fraction(1, 2), Fraction(7, 20), Fraction(1, 4), Fraction(3, 20),
+               Fraction(1, 10), Fraction(1, 20), Fraction(2), Fraction(3, 100), Fraction(1, 100)]
+    probes = []
+    for f in factors:
+        c = dict(case, shifts=1, timest=_scaled(case["timest"], f))
+        probes.append(c)
+    res1 = run_parallel(ctx, exe, [(str(i), gt.render(c)) for i, c in enumerate(probes)], chunk=1)
+    cands = []
+    for i, c in enumerate(probes):
+        r = res1[str(i)]
+        if r.get("crash") or r.get("ret") != 0 or not r.get("mix"):
+            continue
+        cm = r["mix"]["cells"]
+        order = sorted(cm, key=lambda k: cm[k].get(k, 1.0))        # smallest self weight first
+        for cell in order[:limit_cells]:
+            for inner, outer in ((lo, hi), (hi, lo)):
+                sols = {str(k): outer for k in range(0, n + 2)}
+                sols[str(cell)] = inner
+                cands.append((cm[cell].get(cell, 1.0), r["mix"]["nmix"], dict(c, sols=sols)))
+    cands.sort(key=lambda x: (x[0], x[1]))
+    cands = cands[:48]
+    if not cands:
+        return None
+    res2 = run_parallel(ctx, exe, [(str(i), gt.render(c[2])) for i, c in enumerate(cands)], chunk=1)
+    for i, (_, _, c) in enumerate(cands):
+        r = res2[str(i)]
+        if r.get("crash") or r.get("ret") != 0:
+            continue
+        heads, by = table(r)
+        bad = oracle_range(c, by, n)
+        if bad:
+            return c, bad
+    return None
+
+
 def has_oracle_failure(p):
     return any(k.startswith("oracle") or k == "crash" for k, _ in p[1])
 
@@ -707,6 +802,28 @@ def report(ctx, exe, problems, limit=3, explored=0):
             ctx.finding(key, "closed column inventory drifts: %s" % (str(d)[:300]), {"case": c, "input": gt.render(c)})
     orc = [p for p in problems if has_oracle_failure(p)]
     tie = [p for p in problems if not has_oracle_failure(p) and any(k.startswith("tie") for k, _ in p[1])]
+    # protocol Q / non-convex map: targeted failing-input search on the offending configurations
+    found = None
+    if exe is not None:
+        suspects = [p for p in orc if any(k == "oracle-weights" for k, _ in p[1]) and
+                    not any(k.startswith("oracle") and k != "oracle-weights" for k, _ in p[1])]
+        suspects += [p for p in tie if any(k == "tie-mix" for k, _ in p[1])]
+        for c, probs, res in suspects[:6]:
+            try:
+                found = targeted_search(ctx, exe, c)
+            except Exception as e:          # the search must never mask the original report
+                ctx.notes.append("targeted search failed: %r" % (e,))
+                found = None
+            if found:
+                c2, bad = found
+                why = [(k, str(d)[:300]) for k, d in probs if k in ("oracle-weights", "tie-mix")][:3]
+                ctx.violation("C11 oracle-range (targeted search after %s): element concentration leaves the range of the "
+                              "initial column and boundary solutions: %s" % (",".join(sorted({k for k, _ in why})), str(bad[:2])[:300]),
+                              {"case": c2, "input": gt.render(c2), "problems": [("oracle-range", str(bad[:3])[:400])] + why,
+                               "origin_case": c})
+                break
+    if found:
+        return
     for c, probs, res in orc[:limit]:
         rest = [(k, d) for k, d in probs if not k.startswith("finding:")]
         kinds = sorted({k for k, _ in rest})
@@ -722,7 +839,8 @@ def report(ctx, exe, problems, limit=3, explored=0):
         c, probs, res = tie[0]
         rest = [(k, d) for k, d in probs if k.startswith("tie")]
         ctx.violation("C11 correspondence broken (model of init_mix/transport ≠ code) on %d case(s); the property's direct "
-                      "oracles held on all %d explored cases. First: %s" % (len(tie), explored, str(rest[0][1])[:300]),
+                      "oracles held on all %d explored cases and the targeted contrast search found no range violation. First: %s"
+                      % (len(tie), explored, str(rest[0][1])[:300]),
                       {"case": c, "input": gt.render(c), "problems": [(k, str(d)[:400]) for k, d in rest[:6]],
                        "correspondence": "tools/props/c11.py judge_modelled vs pmodel transport"}, found_input=False)
 
@@ -731,8 +849,11 @@ RULE = ("columns from tools/gens/transport.py: 1-40 cells, one/equal/unequal/sho
         "some-zero/short dispersivity lists, D in {0, 0.3e-9, 1e-9, random 1e-11..1e-6}, time step in {0,1,3600,86400,random}, "
         "1-30 shifts, forward/back/diffusion_only, all 9 boundary pairs, correct_disp on/off, random conservative tracer "
         "solutions (Na K Li Ca Mg Cl Br; balanced or slightly unbalanced; water 1 kg or random), optional boundary solutions; "
-        "ADVECTION keyword cases. Every plain case: reader mirror vs engine set-up, nmix + every Dispersion_mix_map entry "
-        "vs model, every cell/step/quantity vs transportRun, direct oracles. Variants (multi_d, implicit, stagnant, exchange, "
+        "ADVECTION keyword cases; 20 % end-cell stress set-ups (short first/last cell, constant boundary at one end only, "
+        "larger end-cell dispersivity, largest mixing factor near the stability limit, strong contrast at that end). "
+        "Every plain case: reader mirror vs engine set-up, nmix + every Dispersion_mix_map entry "
+        "vs model, every cell/step/quantity vs transportRun, direct oracles (incl. convexity of the code's own mixing map); "
+        "on a non-convex map or a broken nmix/weight tie a targeted contrast search looks for a range violation. Variants (multi_d, implicit, stagnant, exchange, "
         "calcite): direct oracles only. Runs are limited to 1200 (closed diffusion-only: 600) speciations per cell (shifts x (nmix+1)): the engine stores the "
         "species sums of every speciation, ~1e-13 relative residual each. distinct_nontrivial = cases in which at least one sub-mix or shift changed the column.")
 
